@@ -180,10 +180,10 @@ def all_subsets(n):
             yield list(c)
 
 
-def small_mesh(kind, rng, ntmax):
-    for _ in range(200):
+def small_mesh(kind, rng, ntmax, ntmin=1):
+    for _ in range(400):
         g = gm.GEN[kind](rng)
-        if g['t'].shape[1] <= ntmax and not ex.input_problems(kind, g['p'], g['t']):
+        if ntmin <= g['t'].shape[1] <= ntmax and not ex.input_problems(kind, g['p'], g['t']):
             return g
     return None
 
@@ -193,11 +193,11 @@ def run_oracle(ctx):
     from skfem.utils import adaptive_theta
     rng = np_seed(ctx, 13)
     # (a) ALL marked subsets of small meshes
-    plan = {'line': (ctx.n(3, 6), ctx.n(4, 7)), 'tri': (ctx.n(5, 14), ctx.n(6, 10)), 'tet': (ctx.n(3, 8), ctx.n(4, 6))}
+    plan = {'line': (ctx.n(4, 8), ctx.n(5, 8)), 'tri': (ctx.n(8, 16), ctx.n(7, 10)), 'tet': (ctx.n(5, 10), ctx.n(5, 6))}
     exh = {}
     for kind, (nmesh, ntmax) in plan.items():
         for _ in range(nmesh):
-            g = small_mesh(kind, rng, ntmax)
+            g = small_mesh(kind, rng, ntmax, ntmin=min(3, ntmax) if rng.random() < 0.8 else 1)
             if g is None:
                 continue
             m = gm.build(kind, g['p'], g['t'], g.get('sort_t'))
@@ -210,7 +210,7 @@ def run_oracle(ctx):
             exh.setdefault(kind, []).append({'cells': nt, 'subsets': 2 ** nt})
     ctx.extra['exhaustive_marked_subsets'] = exh
     # (b) mixed sequences of 3-6 adaptive / uniform steps
-    nseq = ctx.n(8, 40)
+    nseq = ctx.n(14, 60)
     for kind in ('line', 'tri', 'tet'):
         for _ in range(nseq if kind != 'tet' else max(3, nseq // 2)):
             g = small_mesh(kind, rng, 8 if kind != 'tet' else 6)
@@ -301,7 +301,7 @@ def run(ctx):
         ctx.broke('proof', 'props/C13.v', 'not compiled: generated or tie files failed')
     if dyn_ok:
         rng = np_seed(ctx, 131)
-        cases = corr_cases(ctx, rng, ctx.n(60, 240))
+        cases = corr_cases(ctx, rng, ctx.n(44, 240))
         ctx.corr('adaptive', IMPORTS, 'run', 'out_eqb', cases, defs=DEFS, per_file=(len(cases) + 3) // 4,
                  nontrivial=lambda r: len(r['t'][0]) >= 2 and 0 < len(r['marked']) < len(r['t'][0]))
         for c in cases[:3]:
